@@ -49,8 +49,13 @@ fn gen_case(ch: &mut Ch, thorough: bool) -> Option<Case> {
         }
         combo = combo.with(t, a);
     }
+    // the configured field next to a plain one, or alone in its struct / variant
+    let ctx = *ch.of(&[crate::gen::Ctx::FirstOf2, crate::gen::Ctx::Alone]);
+    if ctx == crate::gen::Ctx::Alone && si > 0 && !thorough {
+        return None;
+    }
     let attrs = combo_attrs(&combo, KeyStyle::Distinct, KeyForm::Method);
-    let item = single_field_item(container, crate::gen::Ctx::FirstOf2, "dxrt::V", &attrs, "");
+    let item = single_field_item(container, ctx, "dxrt::V", &attrs, "");
     Some(Case { vector: ch.vector(), attr: names(&derived).join(", "), item: item.print(), derived, container, entry, combo })
 }
 
